@@ -14,6 +14,7 @@ import (
 	"sort"
 	"strings"
 	"sync"
+	"sync/atomic"
 	"time"
 
 	"github.com/nsqio/nsq/internal/lg"
@@ -37,6 +38,7 @@ type Daemon struct {
 	statsBase string
 	bmu       sync.Mutex
 	Log       *authLog
+	plainN    int64
 	sockDir   string // set when the plaintext HTTP listener is a unix socket (every third daemon)
 }
 
@@ -279,18 +281,34 @@ func (d *Daemon) HTTPRequest(port, cert, route, prefix string) (int, string) {
 		CheckRedirect: func(*http.Request, []*http.Request) error { return http.ErrUseLastResponse }}
 	var resp *http.Response
 	var err error
+	method, url, payload := "GET", base+"/ping", []byte(nil)
 	switch route {
 	case "pub":
-		resp, err = cl.Post(base+"/pub?topic="+prefix+"_t1", "application/octet-stream", bytes.NewReader([]byte("h-"+prefix)))
+		method, url, payload = "POST", base+"/pub?topic="+prefix+"_t1", []byte("h-"+prefix)
 	case "pprof": // a route registered as a plain net/http handler
-		resp, err = cl.Get(base + "/debug/pprof/cmdline")
+		url = base + "/debug/pprof/cmdline"
 	case "unknown": // no route matches: the router's NotFound handler
-		resp, err = cl.Get(base + "/no/such/" + prefix)
+		url = base + "/no/such/" + prefix
 	case "badmethod": // the router's MethodNotAllowed handler
-		resp, err = cl.Get(base + "/pub?topic=" + prefix + "_t1")
-	default:
-		resp, err = cl.Get(base + "/ping")
+		url = base + "/pub?topic=" + prefix + "_t1"
 	}
+	req, rerr := http.NewRequest(method, url, bytes.NewReader(payload))
+	if rerr != nil {
+		return -2, rerr.Error()
+	}
+	if payload != nil {
+		req.Header.Set("Content-Type", "application/octet-stream")
+	}
+	if port == "http" && atomic.AddInt64(&d.plainN, 1)%2 == 0 {
+		// every other plaintext request says of itself that it travelled over TLS (what a proxy in front would add): what
+		// counts is the connection it arrived on
+		req.Header.Set("X-Forwarded-Proto", "https")
+		req.Header.Set("X-Forwarded-Ssl", "on")
+		req.Header.Set("X-Forwarded-Scheme", "https")
+		req.Header.Set("Front-End-Https", "on")
+		req.Header.Set("Forwarded", "for=192.0.2.1;proto=https")
+	}
+	resp, err = cl.Do(req)
 	if err != nil {
 		var ne net.Error
 		if ok := asNetTimeout(err, &ne); ok {
